@@ -526,7 +526,12 @@ class AlignmentRotation(HomogFamilyAlignment, Rotation):
 
     def __init__(self, source, target, allow_mirror=False):
         HomogFamilyAlignment.__init__(self, source, target)
-        Rotation.__init__(
+        Similarity.__init__(
+            self, np.eye(source.n_dims + 1), copy=False, skip_checks=True
+        )
+        # use the pure Rotation setter - the target we were given must not be
+        # re-synced from the state on construction
+        Rotation.set_rotation_matrix(
             self, optimal_rotation_matrix(source, target, allow_mirror=allow_mirror)
         )
         self.allow_mirror = allow_mirror
